@@ -16,8 +16,9 @@
                    Send, that Send's error at the step the last member returned.
    [C17T_guard]: the completion order is a permutation; levels: every float32 intermediate of the
                  reducer is exactly representable (so rounding and fused multiply-add cannot
-                 matter); Pull: members as the harness builds them, no scheduler-dependent event,
-                 strategy One excluded. *)
+                 matter); Pull: members as the harness builds them (at most 3000), no
+                 scheduler-dependent event, strategy One excluded.
+   Group/TraitGroupPullRace.v proves, for every case: tagrees -> C17T_guard -> C17T_ok. *)
 From Coq Require Import QArith.
 From SC Require Import Base.Prelude Group.Exec Group.C17Judge Group.TraitGroup.
 Open Scope Z_scope.
@@ -272,9 +273,11 @@ Definition hist_exact (n : nat) (hist : list (nat * Q)) : bool :=
   forallb (fun k => fold_exact_p 0 None (map (latest (firstn k hist)) (seq 0 n)))
           (seq 1 (List.length hist)).
 
+(* at most 3000 members: the canonical error numbers collide beyond (a failed Send is 3000+k, member
+   i's own error i+1) *)
 Definition pull_guard {V} (strategy : Z) (ms : list member) (eofs : list bool) (st : pstate V) : bool :=
-  negb (strategy =? 4) && members_ok ms && Nat.eqb (List.length eofs) (List.length ms)
-  && negb (p_nondet st).
+  (List.length ms <=? 3000)%nat && negb (strategy =? 4) && members_ok ms
+  && Nat.eqb (List.length eofs) (List.length ms) && negb (p_nondet st).
 
 (* ---- the judge ---- *)
 Definition tagrees (c : c17tcase) : bool :=
@@ -306,5 +309,30 @@ Definition C17T_ok (c : c17tcase) : bool :=
   | KPullLight s ms eofs fa evs obs => pull_ok light_spec_p Qeq_bool ms eofs fa s evs obs
   end.
 
+(* strategy One (4): the members run one after the other; compared with [pull_one] of TraitGroup.v part C
+   (scheduler-dependent events excluded); the closed form [C17T_ok] does not cover it (the guard is false) *)
+Definition is_one (c : c17tcase) : bool :=
+  match c with
+  | KUnary _ _ _ _ _ _ _ => false
+  | KPullOnOff s _ _ _ _ _ => s =? 4
+  | KPullLight s _ _ _ _ _ => s =? 4
+  end.
+Definition light_hist_one (n : nat) (evs : list (pevent Q)) : list (nat * Q) :=
+  flat_map (fun e => match e with
+                     | EMsg i chs => match rev chs with (v, _) :: _ => [(i, v)] | [] => [] end
+                     | _ => []
+                     end) evs.
+Definition tagrees_one (c : c17tcase) : bool :=
+  match c with
+  | KUnary _ _ _ _ _ _ _ => true
+  | KPullOnOff s ms eofs fa evs obs =>
+      let st := pull_one onoff_reduce_p Z.eqb ms fa evs in
+      o_nondet st || pobs_eqb Z.eqb obs (pobs_of_one ms eofs st)
+  | KPullLight s ms eofs fa evs obs =>
+      let st := pull_one light_reduce_p Qeq_bool ms fa evs in
+      o_nondet st || negb (hist_exact (List.length ms) (light_hist_one (List.length ms) evs))
+      || pobs_eqb Qeq_bool obs (pobs_of_one ms eofs st)
+  end.
+
 Definition tjudge (c : c17tcase) : Z :=
-  verdict (tagrees c) (if C17T_guard c then C17T_ok c else true) None.
+  verdict (if is_one c then tagrees_one c else tagrees c) (if C17T_guard c then C17T_ok c else true) None.
